@@ -14,6 +14,7 @@ import subprocess
 import time
 import vlib
 from props import c14d
+from props import c14f
 
 EXPECT_REPLY = ("sub", "leave", "deltopic", "deluser")
 
@@ -39,7 +40,7 @@ class Scn:
             else:
                 out.append("me %d %d" % (k, t["owner"]))
         for si, s in sorted(self.sessions.items()):
-            out.append("sess %d %d%s" % (si, s["user"], (" cap=%d" % s["cap"]) if s.get("cap") else ""))
+            out.append("sess %d %d%s%s" % (si, s["user"], (" cap=%d" % s["cap"]) if s.get("cap") else "", " root=1" if s.get("root") else ""))
         for b in self.bursts:
             out += b + ["go"]
         out.append("end")
@@ -493,6 +494,11 @@ def parse_out(text):
             d["haschan"] = "chansess" in d
             d["chansess"] = set(int(x) for x in d.get("chansess", "").split(",") if x)
             d["chanusers"] = set(int(x) for x in d.get("chanusers", "").split(",") if x)
+            # round s14f: the user each attached session is attached AS (perSessionData.uid); users with a subscription row
+            if "asuser" in d:
+                d["asuser"] = dict((int(a), int(c)) for a, c in (x.split(":") for x in d["asuser"].split(",") if x))
+            if "subrows" in d:
+                d["subrows"] = set(int(x) for x in d["subrows"].split(",") if x)
             b["topics"][int(w[2])] = d
         elif w[0] == "goroutines":
             b["goroutines"] = int(w[1])
@@ -613,6 +619,7 @@ def monitor(sc, r):
         if law in RACY and (allowed is None or law not in allowed):
             law = ("unexpected-in-random-burst-" if allowed is None else "unexpected-in-corpus-scenario-") + law
         res.append((law, bi, detail))
+    res += c14f.laws_obo_c14f(sc, r)
     return res
 
 
@@ -807,7 +814,8 @@ def monitor0(sc, r):
                 res.append(("terminated-detached", bi, "topic %d lists sessions of an earlier scenario: %s" % (k, t["foreign"])))
             cnt = {}
             for si in t["sessions"]:
-                u = b["sess"][si]["user"]
+                # the user the session is attached AS (a root session acting on behalf of somebody: that user)
+                u = t.get("asuser", {}).get(si, b["sess"][si]["user"])
                 cnt[u] = cnt.get(u, 0) + 1
             for u in set(cnt) | set(t["online"]):
                 have = t["online"].get(u)
@@ -1022,8 +1030,9 @@ def run(ctx):
     rng = ctx.rng
     if ctx.replay:
         rp = json.load(open(ctx.replay))
-        bursts = [Scn.from_replay("replay%d" % i, rp["replay"]["scenario"]) for i in range(20)]
+        bursts = [Scn.from_replay("replay%d" % i, rp["replay"]["scenario"]) for i in range(20)] if "scenario" in rp["replay"] else []
         seqs = []
+        obos = [sc for sc in bursts[:1] if any(s.get("root") for s in sc.sessions.values())]
     else:
         bursts = []
         cdir = os.path.join(vlib.ROOT, "corpus", ctx.pid)
@@ -1039,6 +1048,9 @@ def run(ctx):
         # round s14d: failed {del topic} followed by member requests; one stalled session attached to 66-78 topics
         bursts += [c14d.gen_fault_scn_c14d(rng, "x%d" % i) for i in range(40 if quick else 600)]
         bursts += [c14d.gen_many_scn_c14d(rng, "y%d" % i) for i in range(6 if quick else 60)]
+        # round s14f: root sessions attached on behalf of users (extra.obo), sequential; compared with the model below
+        obos = [c14f.gen_obo_scn_c14f(Scn, rng, "o%d" % i) for i in range(50 if quick else 600)]
+        bursts += obos
         seqs = [gen_seq_scn(rng, "s%d" % i) for i in range(150 if quick else 1500)]
     t0 = time.time()
     results, logs = run_driver(ctx, bursts + seqs)
@@ -1098,6 +1110,11 @@ def run(ctx):
                           % (len(mism), compared, k, sc.bursts[k], json.dumps(d)[:900], len(bursts)),
                           {"correspondence": "sequential schedules of C14", "scenario": small.replay(), "driver_input": small.lines(), "model_input": model_lines(small), "diff": d})
 
+    # round s14f: online counters of the obo scenarios against the model; the session registry (own driver, own model)
+    if not [law for law in fails if law not in set(f["key"] for f in ctx.load_findings() if f["property"] == ctx.pid)]:
+        c14f.compare_obo_c14f(ctx, obos, results)
+    cov14f = c14f.run_registry_c14f(ctx, quick)
+
     # thorough: the same bursts under the race detector (testing in support; no theorem covers memory accesses)
     race = None
     if not quick and not ctx.replay:
@@ -1129,7 +1146,8 @@ def run(ctx):
                 nontrivial.add(hash((tuple(map(tuple, sc.bursts)), tuple(sig))))
     ctx.coverage.update({
         "evaluations": len(bursts) + len(seqs), "distinct_nontrivial": len(nontrivial),
-        "rule": "seeded random scenarios: 2-4 users, 1-2 sessions each (+ optionally one session with a 2-slot send queue whose writer is stalled: slow-consumer eviction), 1-2 group/channel topics, a 'me' topic per user, optionally a p2p topic; BURST scenarios: 3-7 bursts in which ~70% of the sessions issue 1-3 requests each concurrently (sub/leave/unsub/pub/del-topic/del-user/disconnect) plus injected idle unloads, then a final burst re-subscribing to every group topic; CHANNEL scenarios (gen_chan_scn_c14c): one channel-enabled topic whose users are partly group subscribers (grpXXX) and partly readers (chnXXX), optionally a plain group topic, 1-2 sessions with a 2-slot send queue; requests carry the name form (as=grp|chn): attach under either name, {leave} / {leave unsub} under either name, slow-consumer phases (writers stalled, the owner publishes 3-4 messages, the third broadcast drops the session), disconnects, idle unloads, a final re-subscribe under both names; SEQUENTIAL scenarios: 6-18 single requests over group topics with and without channel functionality, {leave} under either name, a channel name for a plain group now and then (the model's alphabet), compared exactly with the extracted model (replies, Session.subs, Topic.sessions, isChanSub flags, loaded/stored, terminated); FAILED-DELETE scenarios (round s14d, gen_fault_scn_c14d; also in the sequential scenarios: 45% of the owners' {del topic}): the owner's {del what=topic} meets a failing store.Topics.Delete (request suffix fault=TopicDelete: memverif.SetHook arms the fault for exactly that adapter call) on a loaded topic with sessions attached or on an unloaded one, alone in its burst, followed by 2-4 bursts of leave / unsubscribe / subscribe / publish / disconnect of the members, a second failed delete, a successful delete, a final re-subscription; MANY-TOPICS scenarios (gen_many_scn_c14d): one session attached to 66-78 group topics of one owner, its writer stalled, then {del user} of the owner / all topics deleted at once / both / the user's other session unsubscribes from all of them (evictUser), then the writer resumes and the session asks for four of the topics again; non-trivial = at least one request accepted (200); distinct by (requests, replies)",
+        "rule": "seeded random scenarios: 2-4 users, 1-2 sessions each (+ optionally one session with a 2-slot send queue whose writer is stalled: slow-consumer eviction), 1-2 group/channel topics, a 'me' topic per user, optionally a p2p topic; BURST scenarios: 3-7 bursts in which ~70% of the sessions issue 1-3 requests each concurrently (sub/leave/unsub/pub/del-topic/del-user/disconnect) plus injected idle unloads, then a final burst re-subscribing to every group topic; CHANNEL scenarios (gen_chan_scn_c14c): one channel-enabled topic whose users are partly group subscribers (grpXXX) and partly readers (chnXXX), optionally a plain group topic, 1-2 sessions with a 2-slot send queue; requests carry the name form (as=grp|chn): attach under either name, {leave} / {leave unsub} under either name, slow-consumer phases (writers stalled, the owner publishes 3-4 messages, the third broadcast drops the session), disconnects, idle unloads, a final re-subscribe under both names; SEQUENTIAL scenarios: 6-18 single requests over group topics with and without channel functionality, {leave} under either name, a channel name for a plain group now and then (the model's alphabet), compared exactly with the extracted model (replies, Session.subs, Topic.sessions, isChanSub flags, loaded/stored, terminated); FAILED-DELETE scenarios (round s14d, gen_fault_scn_c14d; also in the sequential scenarios: 45% of the owners' {del topic}): the owner's {del what=topic} meets a failing store.Topics.Delete (request suffix fault=TopicDelete: memverif.SetHook arms the fault for exactly that adapter call) on a loaded topic with sessions attached or on an unloaded one, alone in its burst, followed by 2-4 bursts of leave / unsubscribe / subscribe / publish / disconnect of the members, a second failed delete, a successful delete, a final re-subscription; MANY-TOPICS scenarios (gen_many_scn_c14d): one session attached to 66-78 group topics of one owner, its writer stalled, then {del user} of the owner / all topics deleted at once / both / the user's other session unsubscribes from all of them (evictUser), then the writer resumes and the session asks for four of the topics again; non-trivial = at least one request accepted (200); distinct by (requests, replies); OBO scenarios (round s14f, c14f.gen_obo_scn_c14f): 2-3 regular users, all members of 1-2 group topics, plus a root user who is not a member, with 1-2 root sessions: 8-16 single requests: root {sub} with extra.obo=<member>, root {leave} with the same obo, members' own {sub}/{leave}, disconnects (mostly of root sessions), the owner's {del topic}; optional tail judged by the laws only: the acted-for member's {leave unsub} (evictUser) or a root session with a 2-slot queue dropped as a slow consumer; up to the tail compared exactly with the extracted model (perUser.online of every user, perSessionData.uid of every attached session); REGISTRY scenarios: see round_s14f",
+        "round_s14f": cov14f, "obo_scenarios": len(obos),
         "burst_scenarios": len(bursts), "sequential_scenarios": len(seqs), "concurrent_bursts": conc, "requests_issued": nreq,
         "traces_validated_against_impl": compared, "correspondence_mismatches": len(mism),
         "monitor_failures": {k: len(v) for k, v in fails.items()},
@@ -1149,7 +1167,9 @@ def run(ctx):
                 "c14_failed_delete_restores_status (status word: markPaused(true); Delete fails; markPaused(false) gives the word back, every word of a topic that is not paused)",
                 "c14_failed_delete_flags (every word: paused ends clear, marked-deleted untouched)", "c14_failed_delete_keeps_active", "c14_successful_delete_inactive",
                 "c14_failed_delete_status_of_instance", "c14_failed_delete_topic_as_before (hub table, instances, store rows, every queue but Hub.unreg unchanged; sessions differ in the outbox only)",
-                "c14_failed_delete_answered (500 unless the session is closing)", "c14_failed_delete_members_served"],
+                "c14_failed_delete_answered (500 unless the session is closing)", "c14_failed_delete_members_served",
+                "round s14f, model Sys/RegistryC14f.v part A (SessionStore: NewSession incl. the loop expiring stale long-polling sessions, Get, Delete via cleanUp(false), EvictUser; any call sequence, any arguments, any life time): c14_registry_exact (registry = exactly the sessions created and not terminated, each once; LRU list = exactly the long-polling ones among them, each once), c14_registry_new_session (every session NewSession expires is unregistered, off the list and terminated; the session returned is registered)",
+                "round s14f, part B (per-user online counters of one loaded topic; the attachment record carries the user attached AS): c14_online_count_exact (online(u) = number of sessions attached as u, every history of attach / handleLeaveRequest), c14_online_count_restored (no session left => every count 0), c14_online_no_phantom_entry (a step creates a perUser entry only for the user being attached as / of the record being removed)"],
             "refuted by a witness schedule replayed on the real code": [
                 "c14_inflight_balance_statement (c14_inflight_balance_refuted, corpus/C14/01)",
                 "c14_reply_exactly_one_statement (c14_reply_exactly_one_refuted, corpus/C14/03)",
@@ -1170,6 +1190,7 @@ def run(ctx):
             "harness/overlay/server/db/memverif: in-memory adapter (store contract modelled, not verified)",
             "tools/props/c14.py laws: python restatement of the property on the driver's output; laws with a circumstance in their name are the narrow forms of reproduced defects (findings/C14.md, KNOWN_FINDINGS.txt) - a failure outside these circumstances keeps the general name and is a violation",
             "Lifecycle.v scope: group topics with or without channel functionality addressed under either name (asChan / isChanSub, the name-form check of handleLeaveRequest after the detach, the 404 that does not return), owners delete, unbounded FIFO queues (real buffers: hub.join 256, hub.unreg 256, topic.reg/unreg 256, meta 64, exit 1, session.detach 64, session.stop 1): deadlocks that need a full buffer are outside the model; hub and topic handler bodies are atomic steps; account deletion, p2p, 'me', per-user records, presence are exercised by the driver only",
+            "round s14f: harness/overlay/server/zz_verif_c14f_test.go TestVerifC14Registry drives the real SessionStore (NewSession with a nil *websocket.Conn / an httptest recorder as http.ResponseWriter, exactly the two call sites hdl_websock.go:194 and hdl_longpoll.go:161; Session.uid set by the driver = login; lastTouched moved back under the store's lock = time passing; cleanUp(false) called directly = the end of the connection's read loop; no read/write loops run, so a stop message stays queued: 'terminated' = terminating flag set or stop message queued); each call runs on its own goroutine, not returning within 8 s = hang (the rest of that scenario is skipped, a fresh store installed); the model's clock is 0 for every call (the real calls are milliseconds apart, ages are 30/50 s, life time 75 s); SessionStore.Shutdown / NodeRestarted / cluster (multiplexing) sessions are not modelled; part B is a model of the counter bookkeeping of attach and handleLeaveRequest only (ordinary foreground sessions, group topic under its natural name): {leave unsub} / evictUser, background sessions, proxy sessions and slow-consumer eviction of root sessions are exercised by the burst scenarios and the online-count laws only (the laws now count a session under the user it is attached AS, read off perSessionData.uid)",
             "sequential schedules (one request per burst) are compared exactly with the extracted model; concurrent bursts are judged by the laws only (the model's interleavings are quantified over in the theorems, not enumerated by the run)",
             "last clause of the property (shared data only touched under its lock/atomic): NOT proved, no Gallina model expresses Go memory accesses; checked dynamically by the Go race detector in the thorough tier (testing in support)"],
     })
